@@ -65,7 +65,9 @@ WHAT IS PROVED NOW
      sums; own reading within `ε_n` of `Σ v·typical / Σ v`.
    * Aroon(p ≥ 1): fields `None` up to `p−1`, first reading at `p`; each field within `ε_n`,
      `up, down ∈ [0,100]`, `osc ∈ [−100,100]`.
-   * OBV, ROC: `obv_series`, `roc_series` (as before), and now through the engine: `C06_FULL_holds`.
+   * OBV, ROC: `obv_series`, `roc_series` on the row-major spec (as before: OBV within `(j+1)·ε_n`, ROC `None`
+     on the first `period` candles, then within `ε_n`); OBV now also through the engine: `C06_FULL_holds`
+     (ROC likewise by `Numeric.leaf_series_engine` with `Covered.roc`, not restated).
 
 WHAT IS STILL OPEN (`C06_chained_FULL` below states the first item formally)
 
@@ -383,18 +385,582 @@ example : ∃ vs : List (Val ℚ), vs.length = demoRaw.length ∧
   roc_series 2 (by norm_num) "ROC" "close" (·.c) 4 (by decide) noDot_close (fun _ => rfl) demoRaw demoRaw_plain
     (by intro j hj; simp [demoRaw] at hj; interval_cases j <;> simp [fieldAt, demoRaw, Demo.mk])
 
-/-- The full property, stated for OBV through the ENGINE (the other eight indicators: the same
-shape with their own exact series – Wilder-smoothed gain/loss for RSI, EMA differences for MACD,
-window extremes and SMAs for Stochastic, chained EMAs for TSI, bars-since-extreme for Aroon,
-Wilder-smoothed DM over ATR and DX for ADX, cumulative typical-price·volume over volume for VWAP):
-for every raw stream `calculate` never raises and reading `j` is within `(j+1)·ε` of the exact
-on-balance volume.
-NOT proved.  Proved instead: every single `_calculate_reading` call of all nine indicators (above)
-and the whole series of OBV and ROC on the row-major spec (`obv_series`, `roc_series`).  Missing: the
-leaf contracts tying `rowMajor` to `calculate` for OBV/ROC/Aroon (HexProofs/Framework has them for
-HLA and SMA), and the framework induction through managed helper series for the composites – where
-each helper (`_k`, `_d`, `_first`, `_second`, `_pos`, `_neg`, `_dx`, `_signal_line`) is an ordinary
-SMA/EMA/RMA covered by C04. -/
+/-! ### whole series: the composites (and VWAP, Aroon) over raw candles
+
+Conventions: `raw` is any list of plain candles (`Plain c`: no readings yet), `input` a candle
+field with accessor `fld`; `Gen.rowMajor T.S raw` is the row-major run of the indicator's `TreeSpec`
+`T` – by `TreeSpec.engine` / `batch_iff` / `live_refines` (C01) what `calculate()`, the batch run and
+every append schedule return; `runIndicator tree {} init chunks` is the OBJECT over the base
+timeframe: construction over `init`, `calculate()`, then one `append` per chunk. -/
+
+/-! #### RSI -/
+
+/-- **RSI, whole series** (period `p ≥ 1`, input a candle field).  For EVERY raw list the run
+returns the raw candles with, on candle `j`, the pair (own reading, `<name>_data` entry), and every
+pair satisfies `RsiOK`: both `None` before the TRUE warm-up index `p`; from `p` on the data entry is
+EXACTLY `{gain: wilderAvg p up j, loss: wilderAvg p down j}` (the managed series is not rounded: plain
+means of the first `p` up / down moves at index `p`, then `avg j = (avg (j−1)·(p−1) + move j)/p`)
+and the own reading is `round n (100 − 100/(1 + gain/loss))` (`100` when `loss = 0`): within `ε_n`
+of the textbook value at every index (no growth) and inside `[0, 100]`. -/
+theorem rsi_series (p : Nat) (hp : 1 ≤ p) (nm input : String) (fld : Candle K → Num K) (n : Nat)
+    (hn : RsiNames nm) (hk : IsKey nm) (hin : NoDot input ∧ input ∈ Candle.attrNames)
+    (hattr : ∀ c : Candle K, c.attr input = some (.num (fld c)))
+    (raw : List (Candle K)) (hraw : ∀ c ∈ raw, Plain c) :
+    ∃ rows : List (Val K × Val K), rows.length = raw.length ∧
+      Gen.rowMajor (rsiTree (F := K) nm n (p : Int) input (by omega) hn hin).S raw = .ok (decoRsi nm raw rows) ∧
+      ∀ j, j < raw.length → RsiOK p n (fieldAt fld raw) j (rows.getD j (.none, .none)) :=
+  Numeric.rsi_series p hp nm input fld n hn hk hin hattr raw hraw
+
+/-- **RSI, whole series, read off the candles**: on candle `j` the own reading follows the textbook
+series `rsiSeries` (`None` before index `p`, then within `ε_n` of `100 − 100/(1 + avgGain/avgLoss)`
+and in `[0, 100]`: `RsiOwnOK`); `<name>_data` is `None` before `p` and afterwards its fields
+`.gain` / `.loss` are exactly Wilder's averages of the upward / downward moves. -/
+theorem rsi_series_candles (p : Nat) (hp : 1 ≤ p) (nm input : String) (fld : Candle K → Num K) (n : Nat)
+    (hn : RsiNames nm) (hk : IsKey nm) (hin : NoDot input ∧ input ∈ Candle.attrNames)
+    (hattr : ∀ c : Candle K, c.attr input = some (.num (fld c)))
+    (raw : List (Candle K)) (hraw : ∀ c ∈ raw, Plain c) :
+    ∃ out : List (Candle K), out.length = raw.length ∧
+      Gen.rowMajor (rsiTree (F := K) nm n (p : Int) input (by omega) hn hin).S raw = .ok out ∧
+      ∀ j, j < raw.length →
+        RsiOwnOK n (rsiSeries p (fieldAt fld raw) j) (readingByCandle (out.getD j default) nm) ∧
+        (j < p → readingByCandle (out.getD j default) (nm ++ "_data") = .none) ∧
+        (p ≤ j →
+          readingByCandle (out.getD j default) (nm ++ "_data.gain")
+            = .flt (wilderAvg p (upAt (fieldAt fld raw)) j) ∧
+          readingByCandle (out.getD j default) (nm ++ "_data.loss")
+            = .flt (wilderAvg p (downAt (fieldAt fld raw)) j)) :=
+  Numeric.rsi_series_candles p hp nm input fld n hn hk hin hattr raw hraw
+
+/-- **… through the object**: building the RSI over the raw candles and calling `calculate()` once
+returns exactly the candles of `rsi_series`. -/
+theorem rsi_series_batch (p : Nat) (hp : 1 ≤ p) (nm input : String) (fld : Candle K → Num K) (n : Nat)
+    (hn : RsiNames nm) (hk : IsKey nm) (hin : NoDot input ∧ input ∈ Candle.attrNames)
+    (hattr : ∀ c : Candle K, c.attr input = some (.num (fld c)))
+    (raw : List (Candle K)) (hraw : ∀ c ∈ raw, Plain c) :
+    ∃ rows : List (Val K × Val K), rows.length = raw.length ∧
+      candlesOf (runIndicator (mkTop (.rsi (p : Int) input : Kind K) nm n) {} raw []) = .ok (decoRsi nm raw rows) ∧
+      ∀ j, j < raw.length → RsiOK p n (fieldAt fld raw) j (rows.getD j (.none, .none)) :=
+  Numeric.rsi_series_batch p hp nm input fld n hn hk hin hattr raw hraw
+
+/-- **… for every append schedule**: whenever a live history (construction over `init`,
+`calculate()`, then any appends) returns, its candles are those of `rsi_series` over the whole
+stream `init ++ chunks.flatten`. -/
+theorem rsi_series_live (p : Nat) (hp : 1 ≤ p) (nm input : String) (fld : Candle K → Num K) (n : Nat)
+    (hn : RsiNames nm) (hk : IsKey nm) (hin : NoDot input ∧ input ∈ Candle.attrNames)
+    (hattr : ∀ c : Candle K, c.attr input = some (.num (fld c)))
+    (init : List (Candle K)) (chunks : List (List (Candle K)))
+    (hraw : ∀ c ∈ init ++ chunks.flatten, Plain c) (snap : List (Candle K))
+    (hsnap : candlesOf (runIndicator (mkTop (.rsi (p : Int) input : Kind K) nm n) {} init chunks) = .ok snap) :
+    ∃ rows : List (Val K × Val K), rows.length = (init ++ chunks.flatten).length ∧
+      snap = decoRsi nm (init ++ chunks.flatten) rows ∧
+      ∀ j, j < (init ++ chunks.flatten).length →
+        RsiOK p n (fieldAt fld (init ++ chunks.flatten)) j (rows.getD j (.none, .none)) :=
+  Numeric.rsi_series_live p hp nm input fld n hn hk hin hattr init chunks hraw snap hsnap
+
+/-- **… and with a collapsing timeframe** (the instantiation pattern for every series theorem of
+this file): with `timeframe = tf` every live history that returns ends with the RSI series of the
+RESAMPLED stream `resample tf (init ++ chunks.flatten)` (C01: `TreeSpec.live_refines` on
+`MgrSpec.tf`, then `rsi_series` on the resampled candles, which are plain). -/
+theorem rsi_series_tf (tf : Int) (htf : 0 < tf) (p : Nat) (hp : 1 ≤ p) (nm input : String)
+    (fld : Candle K → Num K) (n : Nat)
+    (hn : RsiNames nm) (hk : IsKey nm) (hin : NoDot input ∧ input ∈ Candle.attrNames)
+    (hattr : ∀ c : Candle K, c.attr input = some (.num (fld c)))
+    (init : List (Candle K)) (chunks : List (List (Candle K)))
+    (hraw : RawTf (init ++ chunks.flatten)) (snap : List (Candle K))
+    (hsnap : candlesOf (runIndicator (mkTop (.rsi (p : Int) input : Kind K) nm n) (cfgTf tf) init chunks) = .ok snap) :
+    ∃ rows : List (Val K × Val K), rows.length = (resample tf (init ++ chunks.flatten)).length ∧
+      snap = decoRsi nm (resample tf (init ++ chunks.flatten)) rows ∧
+      ∀ j, j < (resample tf (init ++ chunks.flatten)).length →
+        RsiOK p n (fieldAt fld (resample tf (init ++ chunks.flatten))) j (rows.getD j (.none, .none)) := by
+  obtain ⟨rows, hl, hrun, hall⟩ := Numeric.rsi_series p hp nm input fld n hn hk hin hattr _
+    ((MgrSpec.tf K tf htf).spec_plain _ hraw)
+  have h : Gen.rowMajor (rsiTree (F := K) nm n (p : Int) input (by omega) hn hin).S
+      (resample tf (init ++ chunks.flatten)) = .ok snap :=
+    (rsiTree (F := K) nm n (p : Int) input (by omega) hn hin).live_refines (MgrSpec.tf K tf htf) init chunks hraw snap hsnap
+  exact ⟨rows, hl, (Except.ok.inj (hrun.symm.trans h)).symm, hall⟩
+
+/-! #### MACD -/
+
+/-- **MACD, whole series** (`2 ≤ fast ≤ slow`, `1 ≤ signal`, input a candle field; `2 ≤ fast` because
+an EMA seed at absolute index 0 would raise, `fast ≤ slow` is what `_validate_fields` establishes).
+For EVERY raw list the run returns EXACTLY `macdOut`, an explicit function of the raw candles: candle
+`j` carries `<name>_EMA_fast` / `<name>_EMA_slow` (4 decimals, first reading at `fast−1` / `slow−1`),
+`<name>_signal_line` (no entry below `slow−1`, `None` up to `slow+signal−3`, from `slow+signal−2` on
+the EMA over the `MACD` column) and the own dict `macdOwn j`.  What these are numerically:
+`macdOut_ok`. -/
+theorem macd_series (nm : String) (n pf ps pg : Nat) (input : String) (fld : Candle K → Num K)
+    (hf : 2 ≤ pf) (hfs : pf ≤ ps) (hg : 1 ≤ pg) (hn : MacdNames nm)
+    (hin : NoDot input ∧ input ∈ Candle.attrNames)
+    (hattr : ∀ c : Candle K, c.attr input = some (.num (fld c)))
+    (raw : List (Candle K)) (hraw : ∀ c ∈ raw, Plain c) :
+    Gen.rowMajor (macdTreeN (K := K) nm n pf ps pg input (by omega) (by omega) hg hn hin).S raw
+      = .ok (macdOut nm n pf ps pg fld raw) :=
+  Numeric.macd_series nm n pf ps pg input fld hf hfs hg hn hin hattr raw hraw
+
+/-- **MACD, candle by candle** (`MacdCandleOK`): candle `j` of `macdOut` is the raw candle with
+* the two EMA helpers `RecOK` w.r.t. the textbook EMAs of the input: `None` before `period−1`, then
+  within `ε₄/a`, `a = 2/(period+1)` (helpers are rounded to 4 decimals);
+* the signal line `RecOK` with warm-up `slow+signal−2`, budget `ε₄/a_signal`, w.r.t. the EMA of the
+  MACD values it reads;
+* the own fields against the textbook MACD / signal / histogram of the raw input: `MACD` `None`
+  before `slow−1`, then within `ε_n + (ε₄/a_f + ε₄/a_s)`; `signal` `None` before `slow+signal−2`, then
+  within `ε_n + (ε₄/a_g + ε_n) + (ε₄/a_f + ε₄/a_s)`; `histogram` same warm-up, one helper budget more;
+* the own dict all-`None` before `slow−1`, and `|histogram − (MACD − signal)| ≤ 3·ε_n` on the STORED
+  values once there is a signal. -/
+theorem macdOut_ok (nm : String) (n pf ps pg : Nat) (fld : Candle K → Num K) (raw : List (Candle K))
+    (hf : 1 ≤ pf) (hfs : pf ≤ ps) (hg : 1 ≤ pg) (hn : MacdNames nm) (hraw : ∀ c ∈ raw, Plain c)
+    (j : Nat) (hj : j < raw.length) :
+    MacdCandleOK nm n pf ps pg (fieldAt fld raw) j (raw.getD j default)
+      ((macdOut nm n pf ps pg fld raw).getD j default) :=
+  Numeric.macdOut_ok nm n pf ps pg fld raw hf hfs hg hn hraw j hj
+
+/-- **… through the object**: whenever the batch run returns (it does: `Numeric.macd_batch`), its
+candles carry exactly those readings. -/
+theorem macd_batch_readings (nm : String) (n pf ps pg : Nat) (input : String) (fld : Candle K → Num K)
+    (hf : 2 ≤ pf) (hfs : pf ≤ ps) (hg : 1 ≤ pg) (hn : MacdNames nm)
+    (hin : NoDot input ∧ input ∈ Candle.attrNames)
+    (hattr : ∀ c : Candle K, c.attr input = some (.num (fld c)))
+    (raw : List (Candle K)) (hraw : ∀ c ∈ raw, Plain c) (out : List (Candle K))
+    (hout : candlesOf (runIndicator (mkTop (.macd (pf : Int) (ps : Int) (pg : Int) input : Kind K) nm n) {} raw [])
+      = .ok out) :
+    out.length = raw.length ∧
+    ∀ j, j < raw.length →
+      MacdCandleOK nm n pf ps pg (fieldAt fld raw) j (raw.getD j default) (out.getD j default) :=
+  Numeric.macd_batch_readings nm n pf ps pg input fld hf hfs hg hn hin hattr raw hraw out hout
+
+/-- **… for every append schedule**: whenever a live history returns, its candles are `macdOut` of
+the whole stream (to which `macdOut_ok` applies). -/
+theorem macd_live (nm : String) (n pf ps pg : Nat) (input : String) (fld : Candle K → Num K)
+    (hf : 2 ≤ pf) (hfs : pf ≤ ps) (hg : 1 ≤ pg) (hn : MacdNames nm)
+    (hin : NoDot input ∧ input ∈ Candle.attrNames)
+    (hattr : ∀ c : Candle K, c.attr input = some (.num (fld c)))
+    (init : List (Candle K)) (chunks : List (List (Candle K)))
+    (hraw : ∀ c ∈ init ++ chunks.flatten, Plain c) (snap : List (Candle K))
+    (hsnap : candlesOf (runIndicator (mkTop (.macd (pf : Int) (ps : Int) (pg : Int) input : Kind K) nm n) {}
+      init chunks) = .ok snap) :
+    snap = macdOut nm n pf ps pg fld (init ++ chunks.flatten) :=
+  Numeric.macd_live nm n pf ps pg input fld hf hfs hg hn hin hattr init chunks hraw snap hsnap
+
+/-! #### Stochastic -/
+
+/-- **STOCH, whole series** (`period = p ≥ 2`, `smoothing_k = sk ≥ 1`, `slow_period = sl ≥ 1`, input a
+candle field; note the constructor order `.stoch period slow smoothK input`).  For EVERY raw list
+the run returns EXACTLY `stochDeco`, an explicit function of the raw candles (row `stRow … j`);
+what the rows are numerically: `stochDeco_ok`. -/
+theorem stoch_series (p sk sl : Nat) (hp : 2 ≤ p) (hsk : 1 ≤ sk) (hsl : 1 ≤ sl) (nm input : String)
+    (fld : Candle K → Num K) (n : Nat) (hn : StochNames nm) (hin : NoDot input ∧ input ∈ Candle.attrNames)
+    (hattr : ∀ c : Candle K, c.attr input = some (.num (fld c)))
+    (raw : List (Candle K)) (hraw : ∀ c ∈ raw, Plain c) :
+    Gen.rowMajor (stochTree (F := K) nm n (p : Int) (sl : Int) (sk : Int) input (by omega) (by omega) (by omega)
+      hn hin).S raw = .ok (stochDeco nm n p sk sl fld raw) :=
+  Numeric.stoch_series p sk sl hp hsk hsl nm input fld n hn hin hattr raw hraw
+
+/-- **STOCH, candle by candle** (`StochOK`): on candle `j`
+* `<name>_data` is absent before index `p−1`; from there on it is `{stoch, k}` whose `stoch` is EXACTLY
+  `100·(x_j − LL)/(HH − LL)` (`0` on a flat window; lows / highs of candles `j−p+1 … j`; not rounded)
+  and whose `k` is the `<name>_k` reading;
+* `<name>_k` (SMA of the raw values, 4 decimals, running form) is `None` before `t_K = p+sk−2`, then
+  within `(j−t_K+1)·ε₄` of the mean of the last `sk` raw values; `<name>_d` (SMA of the STORED `%K`) is
+  `None` before `t_D = p+sk+sl−3`, then within `(j−t_D+1)·ε₄ + (j−t_K+1)·ε₄` of the textbook `%D`;
+* the own reading is ALWAYS a dict `{stoch, k, d}` (three `None`s during warm-up, never a bare `None`):
+  `stoch = round n` of the raw value (within `ε_n`), `k`, `d` = the helper readings rounded to `n`
+  (budget `+ ε_n`). -/
+theorem stochDeco_ok (p sk sl : Nat) (hp : 2 ≤ p) (hsk : 1 ≤ sk) (hsl : 1 ≤ sl) (nm : String)
+    (fld : Candle K → Num K) (n : Nat) (hn : StochNames nm) (raw : List (Candle K)) (hraw : ∀ c ∈ raw, Plain c)
+    (j : Nat) (hj : j < raw.length) :
+    StochOK n p sk sl (fieldAt (·.l) raw) (fieldAt (·.h) raw) (fieldAt fld raw) j
+      (readingByCandle ((stochDeco nm n p sk sl fld raw).getD j default) nm)
+      (readingByCandle ((stochDeco nm n p sk sl fld raw).getD j default) (nm ++ "_data"))
+      (readingByCandle ((stochDeco nm n p sk sl fld raw).getD j default) (nm ++ "_k"))
+      (readingByCandle ((stochDeco nm n p sk sl fld raw).getD j default) (nm ++ "_d")) :=
+  Numeric.stochDeco_ok p sk sl hp hsk hsl nm fld n hn raw hraw j hj
+
+/-- **STOCH ranges**: on candles with `low ≤ input ≤ high` the own `stoch` field lies in `[0, 100]`
+EXACTLY (monotone rounding fixes `0` and `100`); the helper readings and the own `k`, `d` fields lie
+in `[−b, 100 + b]` for their rounding budget `b` (`stochBK`, `stochBD`, `+ ε_n` for the own fields). -/
+theorem stoch_ranges (n p sk sl : Nat) (lo hi x : Nat → K) (hp : 2 ≤ p) (hsk : 1 ≤ sk) (hsl : 1 ≤ sl) (j : Nat)
+    (hw : ∀ i, i ≤ j → lo i ≤ x i ∧ x i ≤ hi i) (own data k d : Val K)
+    (h : StochOK n p sk sl lo hi x j own data k d) :
+    (p ≤ j + 1 → ∃ y, own.nested "stoch" = .flt y ∧ 0 ≤ y ∧ y ≤ 100) ∧
+    (stochTK p sk ≤ j →
+      (∃ y, k = .flt y ∧ -stochBK K p sk j ≤ y ∧ y ≤ 100 + stochBK K p sk j) ∧
+      (∃ y, own.nested "k" = .flt y ∧ -(eps K n + stochBK K p sk j) ≤ y ∧ y ≤ 100 + (eps K n + stochBK K p sk j))) ∧
+    (stochTD p sk sl ≤ j →
+      (∃ y, d = .flt y ∧ -stochBD K p sk sl j ≤ y ∧ y ≤ 100 + stochBD K p sk sl j) ∧
+      (∃ y, own.nested "d" = .flt y ∧ -(eps K n + stochBD K p sk sl j) ≤ y ∧
+        y ≤ 100 + (eps K n + stochBD K p sk sl j))) :=
+  Numeric.stoch_ranges n p sk sl lo hi x hp hsk hsl j hw own data k d h
+
+/-- **… through the object**: whenever the batch run returns (it does: `Numeric.stoch_series_batch`),
+its candles carry exactly those readings. -/
+theorem stoch_batch_readings (p sk sl : Nat) (hp : 2 ≤ p) (hsk : 1 ≤ sk) (hsl : 1 ≤ sl) (nm input : String)
+    (fld : Candle K → Num K) (n : Nat) (hn : StochNames nm) (hin : NoDot input ∧ input ∈ Candle.attrNames)
+    (hattr : ∀ c : Candle K, c.attr input = some (.num (fld c)))
+    (raw : List (Candle K)) (hraw : ∀ c ∈ raw, Plain c) (out : List (Candle K))
+    (hout : candlesOf (runIndicator (mkTop (.stoch (p : Int) (sl : Int) (sk : Int) input : Kind K) nm n) {} raw [])
+      = .ok out) :
+    out.length = raw.length ∧
+    ∀ j, j < raw.length →
+      StochOK n p sk sl (fieldAt (·.l) raw) (fieldAt (·.h) raw) (fieldAt fld raw) j
+        (readingByCandle (out.getD j default) nm) (readingByCandle (out.getD j default) (nm ++ "_data"))
+        (readingByCandle (out.getD j default) (nm ++ "_k")) (readingByCandle (out.getD j default) (nm ++ "_d")) :=
+  Numeric.stoch_batch_readings p sk sl hp hsk hsl nm input fld n hn hin hattr raw hraw out hout
+
+/-- **… for every append schedule**: whenever a live history returns, its candles are `stochDeco` of
+the whole stream (to which `stochDeco_ok` applies). -/
+theorem stoch_series_live (p sk sl : Nat) (hp : 2 ≤ p) (hsk : 1 ≤ sk) (hsl : 1 ≤ sl) (nm input : String)
+    (fld : Candle K → Num K) (n : Nat) (hn : StochNames nm) (hin : NoDot input ∧ input ∈ Candle.attrNames)
+    (hattr : ∀ c : Candle K, c.attr input = some (.num (fld c)))
+    (init : List (Candle K)) (chunks : List (List (Candle K)))
+    (hraw : ∀ c ∈ init ++ chunks.flatten, Plain c) (snap : List (Candle K))
+    (hsnap : candlesOf (runIndicator (mkTop (.stoch (p : Int) (sl : Int) (sk : Int) input : Kind K) nm n) {}
+      init chunks) = .ok snap) :
+    snap = stochDeco nm n p sk sl fld (init ++ chunks.flatten) :=
+  Numeric.stoch_series_live p sk sl hp hsk hsl nm input fld n hn hin hattr init chunks hraw snap hsnap
+
+/-! #### TSI -/
+
+/-- **TSI, whole series** (`period = p ≥ 1`, `smooth_period = s ≥ 1`, input a candle field).  For EVERY
+raw list the run returns EXACTLY `tsiOut`: candle 0 is the raw candle with a `None` own reading and NO
+helper entry; candle `j ≥ 1` carries `<name>_data` = `{price: x j − x (j−1), abs_price: |…|}` (unrounded),
+`<name>_first` / `<name>_abs_first` (`ds1V`: EMA_p, 4 decimals, `None` below index `p` – NOT `p−1`: the
+momentum column starts at candle 1), `<name>_second` / `<name>_abs_second` (`ds2V`: EMA_s of the STORED
+first level, `None` below `p+s−1`) and the own reading `tsiOwn j`. -/
+theorem tsi_series (nm : String) (n p s : Nat) (input : String) (fld : Candle K → Num K)
+    (hp : 1 ≤ p) (hs : 1 ≤ s) (hn : TsiNames nm) (hin : NoDot input ∧ input ∈ Candle.attrNames)
+    (hattr : ∀ c : Candle K, c.attr input = some (.num (fld c)))
+    (raw : List (Candle K)) (hraw : ∀ c ∈ raw, Plain c) :
+    Gen.rowMajor (tsiTreeN (K := K) nm n p s input hp hs hn hin).S raw = .ok (tsiOut nm n p s fld raw) :=
+  Numeric.tsi_series nm n p s input fld hp hs hn hin hattr raw hraw
+
+/-- **TSI own reading against the textbook** (`TsiOK`): `None` before the TRUE warm-up index `p+s−1`;
+afterwards a float which, WHEREVER the exact denominator `EMA_s(EMA_p(|Δx|))` is at least some `d > β`
+(`β = tsiChainBudget = ε₄/a_s + ε₄/a_p`), lies within `ε_n + 200·β/(d − β)` of
+`100·EMA_s(EMA_p(Δx))/EMA_s(EMA_p(|Δx|))`.  (For a denominator within `β` of `0` the stored one may be `0`
+– the code then returns `0.0` – or arbitrarily small: no bound on the quotient is possible.) -/
+theorem tsiOwn_ok (n p s : Nat) (hp : 1 ≤ p) (hs : 1 ≤ s) (x : Nat → K) (j : Nat) :
+    TsiOK n p s x j (tsiOwn n p s x j) :=
+  Numeric.tsiOwn_ok n p s hp hs x j
+
+/-- **TSI range, unconditionally**: the stored reading is `0` when the stored `abs_second` is `0`,
+otherwise `|TSI| ≤ 100 + 200·β/abs_second + ε_n` (`β = tsiChainBudget`). -/
+theorem tsiOwn_range_budget (n p s : Nat) (hp : 1 ≤ p) (hs : 1 ≤ s) (x : Nat → K) (j : Nat) (y : K)
+    (hy : tsiOwn n p s x j = .flt y) :
+    (ds2F p s (tsiAbs x) j = 0 → y = 0) ∧
+    (ds2F p s (tsiAbs x) j ≠ 0 →
+      |y| ≤ 100 + 200 * tsiChainBudget (K := K) p s / ds2F p s (tsiAbs x) j + eps K n) :=
+  Numeric.tsiOwn_range_budget n p s hp hs x j y hy
+
+/-- **TSI range, exactly**: `−100 ≤ TSI ≤ 100` on every stored reading, for a rounding that in
+addition to `LawfulPyF` satisfies `RoundNegLe K 4 : ∀ x, −round₄ x ≤ round₄ (−x)` (equality for
+Python's odd `round`; true for the ℚ instance, `roundNegLe_rat`).  The law is NOT a consequence of
+`LawfulPyF`: round-half-down is lawful and stores `second = −0.0001`, `abs_second = 0` for a one-candle
+momentum of `−0.00005`. -/
+theorem tsiOwn_range_odd (n p s : Nat) (hodd : RoundNegLe K defaultRound) (hp : 1 ≤ p) (hs : 1 ≤ s) (x : Nat → K)
+    (j : Nat) (y : K) (hy : tsiOwn n p s x j = .flt y) : -100 ≤ y ∧ y ≤ 100 :=
+  Numeric.tsiOwn_range_odd n p s hodd hp hs x j y hy
+
+/-- the ℚ instance (round-half-up) satisfies the extra rounding law -/
+theorem roundNegLe_rat (m : Nat) : RoundNegLe ℚ m := Numeric.roundNegLe_rat m
+
+/-- **… through the object, candle by candle** (`TsiCandleOK`): whenever the batch run returns (it does:
+`Numeric.tsi_batch`), candle `j` is the raw candle with the exact momentum dict from candle 1 on, the
+first-level EMAs `RecOK` (first reading at `p`, budget `ε₄/a_p`), the second-level EMAs `RecOK` (first
+reading at `p+s−1`, budget `ε₄/a_s` w.r.t. what they read, `β` w.r.t. the textbook double smoothing), the
+own reading `TsiOK`, and on the STORED values `S`, `A`, `y`: `0 ≤ A`, `y = round_n (0 if A = 0 else
+100·S/A)`, `|S| ≤ A + 2β` (`|S| ≤ A` under `RoundNegLe`), `−100 ≤ y ≤ 100` whenever `|S| ≤ A`. -/
+theorem tsi_batch_readings (nm : String) (n p s : Nat) (input : String) (fld : Candle K → Num K)
+    (hp : 1 ≤ p) (hs : 1 ≤ s) (hn : TsiNames nm) (hin : NoDot input ∧ input ∈ Candle.attrNames)
+    (hattr : ∀ c : Candle K, c.attr input = some (.num (fld c)))
+    (raw : List (Candle K)) (hraw : ∀ c ∈ raw, Plain c) (out : List (Candle K))
+    (hout : candlesOf (runIndicator (mkTop (.tsi (p : Int) (s : Int) input : Kind K) nm n) {} raw []) = .ok out) :
+    out.length = raw.length ∧
+    ∀ j, j < raw.length → TsiCandleOK nm n p s (fieldAt fld raw) j (raw.getD j default) (out.getD j default) :=
+  Numeric.tsi_batch_readings nm n p s input fld hp hs hn hin hattr raw hraw out hout
+
+/-- **… for every append schedule**: whenever a live history returns, its candles are `tsiOut` of the
+whole stream. -/
+theorem tsi_live (nm : String) (n p s : Nat) (input : String) (fld : Candle K → Num K)
+    (hp : 1 ≤ p) (hs : 1 ≤ s) (hn : TsiNames nm)
+    (hin : NoDot input ∧ input ∈ Candle.attrNames)
+    (hattr : ∀ c : Candle K, c.attr input = some (.num (fld c)))
+    (init : List (Candle K)) (chunks : List (List (Candle K)))
+    (hraw : ∀ c ∈ init ++ chunks.flatten, Plain c) (snap : List (Candle K))
+    (hsnap : candlesOf (runIndicator (mkTop (.tsi (p : Int) (s : Int) input : Kind K) nm n) {} init chunks)
+      = .ok snap) :
+    snap = tsiOut nm n p s fld (init ++ chunks.flatten) :=
+  Numeric.tsi_live nm n p s input fld hp hs hn hin hattr init chunks hraw snap hsnap
+
+/-- … and candle by candle for every append schedule -/
+theorem tsi_live_readings (nm : String) (n p s : Nat) (input : String) (fld : Candle K → Num K)
+    (hp : 1 ≤ p) (hs : 1 ≤ s) (hn : TsiNames nm) (hin : NoDot input ∧ input ∈ Candle.attrNames)
+    (hattr : ∀ c : Candle K, c.attr input = some (.num (fld c)))
+    (init : List (Candle K)) (chunks : List (List (Candle K)))
+    (hraw : ∀ c ∈ init ++ chunks.flatten, Plain c) (snap : List (Candle K))
+    (hsnap : candlesOf (runIndicator (mkTop (.tsi (p : Int) (s : Int) input : Kind K) nm n) {} init chunks)
+      = .ok snap) :
+    snap.length = (init ++ chunks.flatten).length ∧
+    ∀ j, j < (init ++ chunks.flatten).length →
+      TsiCandleOK nm n p s (fieldAt fld (init ++ chunks.flatten)) j ((init ++ chunks.flatten).getD j default)
+        (snap.getD j default) :=
+  Numeric.tsi_live_readings nm n p s input fld hp hs hn hin hattr init chunks hraw snap hsnap
+
+/-! #### ADX -/
+
+/-- **ADX, whole series** (`period = p ≥ 1`, `period_signal = sg ≥ 1`).  For EVERY raw list the run
+returns EXACTLY `adxOut`: candle `j` carries `<name>_atr_TR` (true range, 4 decimals, from candle 1),
+`<name>_atr` (Wilder ATR on the stored TRs, first reading at candle `p` – NOT `p−1`), `<name>_data`
+(unrounded: nothing on candle 0, `{pos, neg}` = `+DM` / `−DM` on candles `1 … p−1`, `{pos, neg, dx}` from
+`p` on), `<name>_pos` / `<name>_neg` (RMA, 4 decimals, first reading at candle `p`), `<name>_dx` (RMA of
+the `dx` column, no entry before `p`, first reading at `p+sg−1`) and the own dict `adxOwn j`
+(all-`None` below `p`; `ADX` is rounded twice: to 4 decimals as a helper reading, then to `n`). -/
+theorem adx_series (nm : String) (n p sg : Nat) (hp : 1 ≤ p) (hg : 1 ≤ sg) (hn : AdxNames nm)
+    (raw : List (Candle K)) (hraw : ∀ c ∈ raw, Plain c) :
+    Gen.rowMajor (adxTreeN (K := K) nm n p sg hp hg hn).S raw = .ok (adxOut nm n p sg raw) :=
+  Numeric.adx_series nm n p sg hp hg hn raw hraw
+
+/-- **ADX ranges, exactly, no budget**: every stored own dict has `0 ≤ ADX ≤ 100`, `0 ≤ DM_Plus`,
+`0 ≤ DM_Neg` (each field `None` or such a float). -/
+theorem adxOwn_ranges (n p sg : Nat) (raw : List (Candle K)) (hp : 1 ≤ p) (hg : 1 ≤ sg) (j : Nat) :
+    FieldIn 0 100 ((adxOwn n p sg raw j).nested "ADX") ∧
+    FieldNonneg ((adxOwn n p sg raw j).nested "DM_Plus") ∧
+    FieldNonneg ((adxOwn n p sg raw j).nested "DM_Neg") :=
+  Numeric.adxOwn_ranges n p sg raw hp hg j
+
+/-- **ADX own dict against the textbook series** (Wilder ATR of the exact true ranges, Wilder
+averages of `±DM` seeded at candle `p`, `DI± = 100·smoothed DM/ATR`, `DX = 100·|DI+ − DI−|/(DI+ + DI−)`,
+`ADX` = Wilder average of `DX` seeded at `p+sg−1`).  `DM_Plus` / `DM_Neg`: `None` before candle `p`, then
+within `ε_n + adxDiBudget` of `DI±` provided the textbook ATR exceeds `adxAtrBudget = p·ε₄ + ε₄` on the
+candles so far; `ADX`: `None` before `p+sg−1`, then within `ε_n + (sg·ε₄ + δ)` provided all candles so far
+are well-conditioned (`AdxCond`: denominators bounded away from 0) with `dx` budget at most `δ`. -/
+theorem adxOwn_ok (n p sg : Nat) (raw : List (Candle K)) (hp : 1 ≤ p) (hg : 1 ≤ sg) (j : Nat) :
+    ((∀ i, p ≤ i → i ≤ j → adxAtrBudget (K := K) p < adxAtrE p raw i) →
+      MacdFieldOK (eps K n + adxDiBudget p (adxDiPlusE p raw j) (adxAtrE p raw j)) (adxPlusLine p raw j)
+        ((adxOwn n p sg raw j).nested "DM_Plus") ∧
+      MacdFieldOK (eps K n + adxDiBudget p (adxDiMinusE p raw j) (adxAtrE p raw j)) (adxMinusLine p raw j)
+        ((adxOwn n p sg raw j).nested "DM_Neg")) ∧
+    (∀ δ : K, (∀ i, p ≤ i → i ≤ j → AdxCond p raw i ∧ adxDxBudget p raw i ≤ δ) →
+      MacdFieldOK (eps K n + (eps K defaultRound / (1 / (sg : K)) + δ)) (adxLine p sg raw j)
+        ((adxOwn n p sg raw j).nested "ADX")) :=
+  Numeric.adxOwn_ok n p sg raw hp hg j
+
+/-- **… through the object, candle by candle** (`AdxCandleOK`): whenever the batch run returns (it does:
+`Numeric.adx_batch`), candle `j` is the raw candle with the ATR subtree of C05 (`AtrOK` / `AtrOKTrue`),
+the exact `±DM` / `dx` entries, `<name>_pos` / `<name>_neg` `RecOK` (warm-up `p`, budget `p·ε₄`) w.r.t. the
+textbook Wilder averages, `<name>_dx` `RecOK` (warm-up `p+sg−1`, budget `sg·ε₄`) and in `[0, 100]`, and
+the own dict `adxOwn` with the ranges and budgets of `adxOwn_ranges` / `adxOwn_ok`. -/
+theorem adx_batch_readings (nm : String) (n p sg : Nat) (hp : 1 ≤ p) (hg : 1 ≤ sg) (hn : AdxNames nm)
+    (raw : List (Candle K)) (hraw : ∀ c ∈ raw, Plain c) (out : List (Candle K))
+    (hout : candlesOf (runIndicator (mkTop (.adx (p : Int) (sg : Int) : Kind K) nm n) {} raw []) = .ok out) :
+    out.length = raw.length ∧
+    ∀ j, j < raw.length → AdxCandleOK nm n p sg raw j (out.getD j default) :=
+  Numeric.adx_batch_readings nm n p sg hp hg hn raw hraw out hout
+
+/-- **… for every append schedule**: whenever a live history returns, its candles are `adxOut` of the
+whole stream. -/
+theorem adx_live (nm : String) (n p sg : Nat) (hp : 1 ≤ p) (hg : 1 ≤ sg) (hn : AdxNames nm)
+    (init : List (Candle K)) (chunks : List (List (Candle K)))
+    (hraw : ∀ c ∈ init ++ chunks.flatten, Plain c) (snap : List (Candle K))
+    (hsnap : candlesOf (runIndicator (mkTop (.adx (p : Int) (sg : Int) : Kind K) nm n) {} init chunks) = .ok snap) :
+    snap = adxOut nm n p sg (init ++ chunks.flatten) :=
+  Numeric.adx_live nm n p sg hp hg hn init chunks hraw snap hsnap
+
+/-- … and candle by candle for every append schedule -/
+theorem adx_live_readings (nm : String) (n p sg : Nat) (hp : 1 ≤ p) (hg : 1 ≤ sg) (hn : AdxNames nm)
+    (init : List (Candle K)) (chunks : List (List (Candle K)))
+    (hraw : ∀ c ∈ init ++ chunks.flatten, Plain c) (snap : List (Candle K))
+    (hsnap : candlesOf (runIndicator (mkTop (.adx (p : Int) (sg : Int) : Kind K) nm n) {} init chunks) = .ok snap) :
+    snap.length = (init ++ chunks.flatten).length ∧
+    ∀ j, j < (init ++ chunks.flatten).length →
+      AdxCandleOK nm n p sg (init ++ chunks.flatten) j (snap.getD j default) :=
+  Numeric.adx_live_readings nm n p sg hp hg hn init chunks hraw snap hsnap
+
+/-! #### VWAP -/
+
+/-- **VWAP, whole series** (any period: the formula does not use it – cumulative from candle 0, no
+session anchor).  For EVERY raw list the run returns; from the FIRST candle on (no warm-up) the
+`<name>_data` entry is EXACTLY `{pv: Σ_{k≤j} v_k·(h_k+l_k+c_k)/3, vol: Σ_{k≤j} v_k}` (unrounded) and the
+own reading is a number within `ε_n` of `pv/vol` (`pv` itself, type kept, while `vol = 0`: the
+zero-volume division is never attempted): `VwapOK`. -/
+theorem vwap_series (p : Int) (nm : String) (n : Nat) (hn : VwapNames nm)
+    (raw : List (Candle K)) (hraw : ∀ c ∈ raw, Plain c) :
+    ∃ rows : List (Val K × Val K), rows.length = raw.length ∧
+      Gen.rowMajor (vwapTree (F := K) nm n p).S raw = .ok (decoVwap nm raw rows) ∧
+      ∀ j, j < raw.length → VwapOK n (fieldAt (·.h) raw) (fieldAt (·.l) raw) (fieldAt (·.c) raw)
+        (fieldAt (·.v) raw) j (rows.getD j (.none, .none)) :=
+  Numeric.vwap_series p nm n hn raw hraw
+
+/-- **… through the object**: the batch run returns exactly the candles of `vwap_series`. -/
+theorem vwap_series_batch (p : Int) (nm : String) (n : Nat) (hn : VwapNames nm)
+    (raw : List (Candle K)) (hraw : ∀ c ∈ raw, Plain c) :
+    ∃ rows : List (Val K × Val K), rows.length = raw.length ∧
+      candlesOf (runIndicator (mkTop (.vwap p : Kind K) nm n) {} raw []) = .ok (decoVwap nm raw rows) ∧
+      ∀ j, j < raw.length → VwapOK n (fieldAt (·.h) raw) (fieldAt (·.l) raw) (fieldAt (·.c) raw)
+        (fieldAt (·.v) raw) j (rows.getD j (.none, .none)) :=
+  Numeric.vwap_series_batch p nm n hn raw hraw
+
+/-- **… for every append schedule**: whenever a live history returns, its candles are those of
+`vwap_series` over the whole stream. -/
+theorem vwap_series_live (p : Int) (nm : String) (n : Nat) (hn : VwapNames nm)
+    (init : List (Candle K)) (chunks : List (List (Candle K)))
+    (hraw : ∀ c ∈ init ++ chunks.flatten, Plain c) (snap : List (Candle K))
+    (hsnap : candlesOf (runIndicator (mkTop (.vwap p : Kind K) nm n) {} init chunks) = .ok snap) :
+    ∃ rows : List (Val K × Val K), rows.length = (init ++ chunks.flatten).length ∧
+      snap = decoVwap nm (init ++ chunks.flatten) rows ∧
+      ∀ j, j < (init ++ chunks.flatten).length →
+        VwapOK n (fieldAt (·.h) (init ++ chunks.flatten)) (fieldAt (·.l) (init ++ chunks.flatten))
+          (fieldAt (·.c) (init ++ chunks.flatten)) (fieldAt (·.v) (init ++ chunks.flatten)) j
+          (rows.getD j (.none, .none)) :=
+  Numeric.vwap_series_live p nm n hn init chunks hraw snap hsnap
+
+/-! #### Aroon -/
+
+/-- **Aroon, whole series** (period `p ≥ 1`; a leaf: the plain `rowMajor` spec).  For EVERY raw list
+the run returns; reading `j` is the all-`None` dict up to index `p−1` and from the TRUE warm-up index
+`p` on `{AROONU: round n (100·(p − hiBar)/p), AROOND: …loBar…, AROONOSC: round n (up − down)}` with
+`hiBar` / `loBar` = bars since the MOST RECENT highest high / lowest low of the last `p+1` candles
+(`hiBar_spec`, `loBar_spec`), the oscillator rounded from the UNROUNDED difference: `AroonOK`. -/
+theorem aroon_series (p : Nat) (hp : 1 ≤ p) (nm : String) (n : Nat)
+    (raw : List (Candle K)) (hraw : ∀ c ∈ raw, Plain c) :
+    ∃ vs : List (Val K), vs.length = raw.length ∧
+      rowMajor (mkTop (.aroon p) nm n) raw = .ok (deco nm raw vs) ∧
+      ∀ j, j < raw.length → AroonOK p n (fieldAt (·.h) raw) (fieldAt (·.l) raw) j (vs.getD j .none) :=
+  Numeric.aroon_series p hp nm n raw hraw
+
+/-- **Aroon, field by field** (from index `p` on): `AROONU`, `AROOND` are floats within `ε_n` of
+`100·(p − bars)/p` and inside `[0, 100]`; `AROONOSC` is within `ε_n` of their exact difference and
+inside `[−100, 100]`. -/
+theorem aroonOK_near (p n : Nat) (hp : 1 ≤ p) (h l : Nat → K) (j : Nat) (v : Val K)
+    (hv : AroonOK p n h l j v) (hj : p ≤ j) :
+    ∃ u d o : K, v.nested "AROONU" = .flt u ∧ v.nested "AROOND" = .flt d ∧ v.nested "AROONOSC" = .flt o ∧
+      |u - aroonOf p (hiBar h j p)| ≤ eps K n ∧ 0 ≤ u ∧ u ≤ 100 ∧
+      |d - aroonOf p (loBar l j p)| ≤ eps K n ∧ 0 ≤ d ∧ d ≤ 100 ∧
+      |o - (aroonOf p (hiBar h j p) - aroonOf p (loBar l j p))| ≤ eps K n ∧ -100 ≤ o ∧ o ≤ 100 :=
+  Numeric.aroonOK_near p n hp h l j v hv hj
+
+/-- **… through the engine and the object**: `calculate()` and the batch run return exactly the candles
+of `aroon_series`. -/
+theorem aroon_series_batch (p : Nat) (hp : 1 ≤ p) (nm : String) (n : Nat)
+    (raw : List (Candle K)) (hraw : ∀ c ∈ raw, Plain c) :
+    ∃ vs : List (Val K), vs.length = raw.length ∧
+      engineCalc (mkTop (.aroon p : Kind K) nm n) raw = .ok (deco nm raw vs) ∧
+      candlesOf (runIndicator (mkTop (.aroon p : Kind K) nm n) {} raw []) = .ok (deco nm raw vs) ∧
+      ∀ j, j < raw.length → AroonOK p n (fieldAt (·.h) raw) (fieldAt (·.l) raw) j (vs.getD j .none) :=
+  Numeric.aroon_series_batch p hp nm n raw hraw
+
+/-- **… for every append schedule**. -/
+theorem aroon_series_live (p : Nat) (hp : 1 ≤ p) (nm : String) (n : Nat)
+    (init : List (Candle K)) (chunks : List (List (Candle K)))
+    (hraw : ∀ c ∈ init ++ chunks.flatten, Plain c) (snap : List (Candle K))
+    (hsnap : candlesOf (runIndicator (mkTop (.aroon p : Kind K) nm n) {} init chunks) = .ok snap) :
+    ∃ vs : List (Val K), vs.length = (init ++ chunks.flatten).length ∧
+      snap = deco nm (init ++ chunks.flatten) vs ∧
+      ∀ j, j < (init ++ chunks.flatten).length →
+        AroonOK p n (fieldAt (·.h) (init ++ chunks.flatten)) (fieldAt (·.l) (init ++ chunks.flatten)) j (vs.getD j .none) :=
+  Numeric.aroon_series_live p hp nm n init chunks hraw snap hsnap
+
+/-! #### non-vacuity: the five demo candles of HexProps/C04.lean over ℚ -/
+
+/-- the five raw candles of `C04.demoRaw` (`demoRaw` above plus a flat fifth candle; the source files'
+`rsiDemoRaw`, `macdDemoRaw`, `stochDemoRaw`, `atrDemoRaw`, `winDemoRaw` are this list) -/
+def demoRaw5 : List (Candle ℚ) :=
+  [Demo.mk 10 12 9 11 100, Demo.mk 11 13 10 12 200, Demo.mk 12 15 11 14 300, Demo.mk 14 16 13 15 0,
+   Demo.mk 15 15 15 15 0]
+
+theorem demoRaw5_plain : ∀ c ∈ demoRaw5, Plain c := Numeric.rsiDemoRaw_plain
+
+/-- RSI(3) on `close`: the batch run returns the decorated candles, every pair `RsiOK`
+(HexProofs/Numeric/SeriesRSI.lean computes them: `None` at index 2, `100.0` at index 4 with data
+`{gain: 8/9, loss: 0}`) -/
+example : ∃ rows : List (Val ℚ × Val ℚ), rows.length = demoRaw5.length ∧
+    candlesOf (runIndicator (mkTop (.rsi ((3 : Nat) : Int) "close" : Kind ℚ) "RSI_3" 4) {} demoRaw5 [])
+      = .ok (decoRsi "RSI_3" demoRaw5 rows) ∧
+    ∀ j, j < demoRaw5.length → RsiOK 3 4 (fieldAt (·.c) demoRaw5) j (rows.getD j (.none, .none)) :=
+  rsi_series_batch 3 (by norm_num) "RSI_3" "close" (·.c) 4 rsiNames_demo (by decide) ⟨noDot_close, by decide⟩
+    (fun _ => rfl) demoRaw5 demoRaw5_plain
+
+/-- MACD(2, 3, 2) on `close`: the row-major run is `macdOut`, and every candle is `MacdCandleOK`
+(SeriesMACD.lean computes them: `{0.8334, None, None}` on candle 2, `{0.7222, 0.7778, −0.0556}` on 3) -/
+example : Gen.rowMajor (macdTreeN (K := ℚ) "MACD_2_3_2" 4 2 3 2 "close" (by norm_num) (by norm_num) (by norm_num)
+      macdNames_demo ⟨noDot_close, by decide⟩).S demoRaw5 = .ok (macdOut "MACD_2_3_2" 4 2 3 2 (·.c) demoRaw5) ∧
+    ∀ j, j < demoRaw5.length →
+      MacdCandleOK "MACD_2_3_2" 4 2 3 2 (fieldAt (·.c) demoRaw5) j (demoRaw5.getD j default)
+        ((macdOut "MACD_2_3_2" 4 2 3 2 (·.c) demoRaw5).getD j default) :=
+  ⟨macd_series "MACD_2_3_2" 4 2 3 2 "close" (·.c) (by norm_num) (by norm_num) (by norm_num) macdNames_demo
+      ⟨noDot_close, by decide⟩ (fun _ => rfl) demoRaw5 demoRaw5_plain,
+   macdOut_ok "MACD_2_3_2" 4 2 3 2 (·.c) demoRaw5 (by norm_num) (by norm_num) (by norm_num) macdNames_demo
+      demoRaw5_plain⟩
+
+/-- STOCH(period 2, slow 2, smoothK 2) on `close`: the row-major run is `stochDeco`, every candle
+`StochOK` (SeriesSTOCH.lean: `{stoch: 80, k: 80, d: 78.75}` on candle 3) -/
+example : Gen.rowMajor (stochTree (F := ℚ) "STOCH_2" 4 ((2 : Nat) : Int) ((2 : Nat) : Int) ((2 : Nat) : Int) "close"
+      (by decide) (by decide) (by decide) stochNames_demo ⟨noDot_close, by decide⟩).S demoRaw5
+      = .ok (stochDeco "STOCH_2" 4 2 2 2 (·.c) demoRaw5) ∧
+    ∀ j, j < demoRaw5.length →
+      StochOK 4 2 2 2 (fieldAt (·.l) demoRaw5) (fieldAt (·.h) demoRaw5) (fieldAt (·.c) demoRaw5) j
+        (readingByCandle ((stochDeco "STOCH_2" 4 2 2 2 (·.c) demoRaw5).getD j default) "STOCH_2")
+        (readingByCandle ((stochDeco "STOCH_2" 4 2 2 2 (·.c) demoRaw5).getD j default) ("STOCH_2" ++ "_data"))
+        (readingByCandle ((stochDeco "STOCH_2" 4 2 2 2 (·.c) demoRaw5).getD j default) ("STOCH_2" ++ "_k"))
+        (readingByCandle ((stochDeco "STOCH_2" 4 2 2 2 (·.c) demoRaw5).getD j default) ("STOCH_2" ++ "_d")) :=
+  ⟨stoch_series 2 2 2 (by norm_num) (by norm_num) (by norm_num) "STOCH_2" "close" (·.c) 4 stochNames_demo
+      ⟨noDot_close, by decide⟩ (fun _ => rfl) demoRaw5 demoRaw5_plain,
+   stochDeco_ok 2 2 2 (by norm_num) (by norm_num) (by norm_num) "STOCH_2" (·.c) 4 stochNames_demo demoRaw5
+      demoRaw5_plain⟩
+
+/-- TSI(period 2, smooth 2) on `high` (library name `TSI_2_1`): the row-major run is `tsiOut`
+(SeriesTSI.lean: own reading `None` up to candle 2, `100.0` on candle 3, `22.5832` on candle 4), and
+over ℚ every stored reading lies in `[−100, 100]` exactly -/
+example : Gen.rowMajor (tsiTreeN (K := ℚ) "TSI_2_1" 4 2 2 "high" (by norm_num) (by norm_num) tsiNames_demo
+      ⟨noDot_high, by decide⟩).S demoRaw5 = .ok (tsiOut "TSI_2_1" 4 2 2 (·.h) demoRaw5) ∧
+    (∀ j, TsiOK 4 2 2 (fieldAt (·.h) demoRaw5) j (tsiOwn 4 2 2 (fieldAt (·.h) demoRaw5) j)) ∧
+    ∀ j y, tsiOwn 4 2 2 (fieldAt (·.h) demoRaw5) j = .flt y → -100 ≤ y ∧ y ≤ 100 :=
+  ⟨tsi_series "TSI_2_1" 4 2 2 "high" (·.h) (by norm_num) (by norm_num) tsiNames_demo ⟨noDot_high, by decide⟩
+      (fun _ => rfl) demoRaw5 demoRaw5_plain,
+   fun j => tsiOwn_ok 4 2 2 (by norm_num) (by norm_num) _ j,
+   fun j y => tsiOwn_range_odd 4 2 2 (roundNegLe_rat _) (by norm_num) (by norm_num) _ j y⟩
+
+/-- ADX(2, 2): the row-major run is `adxOut` (SeriesADX.lean: `{ADX: None, DM_Plus: 47.62, DM_Neg: 0}` on
+candle 2, `{100, 41.0277, 0}` on candles 3 and 4), with the exact ranges on every candle -/
+example : Gen.rowMajor (adxTreeN (K := ℚ) "ADX_2_2" 4 2 2 (by norm_num) (by norm_num) adxNames_demo).S demoRaw5
+      = .ok (adxOut "ADX_2_2" 4 2 2 demoRaw5) ∧
+    ∀ j, FieldIn 0 100 ((adxOwn 4 2 2 demoRaw5 j).nested "ADX") ∧
+      FieldNonneg ((adxOwn 4 2 2 demoRaw5 j).nested "DM_Plus") ∧
+      FieldNonneg ((adxOwn 4 2 2 demoRaw5 j).nested "DM_Neg") :=
+  ⟨adx_series "ADX_2_2" 4 2 2 (by norm_num) (by norm_num) adxNames_demo demoRaw5 demoRaw5_plain,
+   fun j => adxOwn_ranges 4 2 2 demoRaw5 (by norm_num) (by norm_num) j⟩
+
+/-- VWAP: the batch run returns, every pair `VwapOK` (SeriesWindows.lean: `Σ v = 600`,
+`Σ v·typical = 7400`, VWAP within `ε` of `37/3` on candle 4) -/
+example : ∃ rows : List (Val ℚ × Val ℚ), rows.length = demoRaw5.length ∧
+    candlesOf (runIndicator (mkTop (.vwap 10 : Kind ℚ) "VWAP_10" 4) {} demoRaw5 [])
+      = .ok (decoVwap "VWAP_10" demoRaw5 rows) ∧
+    ∀ j, j < demoRaw5.length → VwapOK 4 (fieldAt (·.h) demoRaw5) (fieldAt (·.l) demoRaw5)
+      (fieldAt (·.c) demoRaw5) (fieldAt (·.v) demoRaw5) j (rows.getD j (.none, .none)) :=
+  vwap_series_batch 10 "VWAP_10" 4 vwapNames_demo demoRaw5 demoRaw5_plain
+
+/-- Aroon(2): engine and batch run return the decorated candles, every reading `AroonOK`
+(SeriesWindows.lean: `hiBar = 1`, `loBar = 2` on candle 4, i.e. `up = 50`, `down = 0`) -/
+example : ∃ vs : List (Val ℚ), vs.length = demoRaw5.length ∧
+    engineCalc (mkTop (.aroon (2 : Nat) : Kind ℚ) "AROON_2" 4) demoRaw5 = .ok (deco "AROON_2" demoRaw5 vs) ∧
+    candlesOf (runIndicator (mkTop (.aroon (2 : Nat) : Kind ℚ) "AROON_2" 4) {} demoRaw5 []) = .ok (deco "AROON_2" demoRaw5 vs) ∧
+    ∀ j, j < demoRaw5.length → AroonOK 2 4 (fieldAt (·.h) demoRaw5) (fieldAt (·.l) demoRaw5) j (vs.getD j .none) :=
+  aroon_series_batch 2 (by norm_num) "AROON_2" 4 demoRaw5 demoRaw5_plain
+
+/-! ### the former open statement, and the present one -/
+
+/-- The whole-series property as it was stated when only the per-call theorems existed: OBV through
+the ENGINE with the fuel `fuelFor raw` (the fuel the object passes to the sub-calls; the object's own
+`calculate()` is `engineCalc = calculate (fuelFor raw + 1)` – for a leaf such as OBV any fuel
+`≥ length + 2` gives the same result, `calculate_leaf`): for every raw stream `calculate` never raises
+and reading `j` is within `(j+1)·ε` of the exact on-balance volume.
+NOW PROVED: `C06_FULL_holds`.  The "same shape" statements for the other eight indicators are the
+whole-series theorems above – with `engineCalc` for the composites, whose fuel matters
+(`Numeric.rsi_series_engine`, `macd_engine`, `stoch_series_engine`, `tsi_engine`, `adx_engine`,
+`vwap_series_engine`, `aroon_series_batch`), and with the TRUE warm-up indices and budgets listed in
+the header (several differ from what was assumed when this statement was written: each helper is
+NOT simply "an ordinary SMA/EMA/RMA covered by C04" – the helpers read columns that start late
+(TSI, ADX `_pos`/`_neg`/`_dx`, MACD signal, STOCH `_k`/`_d`), read STORED 4-decimal values, and the
+MACD signal seed mixes rounded and unrounded MACD values).  What is open now: `C06_chained_FULL`. -/
 def C06_FULL : Prop :=
   ∀ (K : Type) [Field K] [LinearOrder K] [IsStrictOrderedRing K] [LawfulPyF K]
     (nm : String) (n : Nat) (raw : List (Candle K)),
@@ -403,5 +969,54 @@ def C06_FULL : Prop :=
       calculate (fuelFor raw) (mkTop .obv nm n) raw = .ok (deco nm raw vs) ∧
       ∀ j, j < raw.length → ∃ t : Num K, vs.getD j .none = .num t ∧
         |t.toF - obvExact (fieldAt (·.c) raw) (fieldAt (·.v) raw) j| ≤ ((j + 1 : Nat) : K) * eps K n
+
+/-- **`C06_FULL` holds**: `obv_series` on the row-major spec, the OBV leaf contract
+(`Covered.obv`, `leaf_series_engine`) and fuel independence of a leaf's `calculate`. -/
+theorem C06_FULL_holds : C06_FULL := by
+  intro K _ _ _ _ nm n raw hk hraw
+  obtain ⟨vs, hl, hrun, hall⟩ := Numeric.obv_series nm n hk raw hraw
+  refine ⟨vs, hl, ?_, hall⟩
+  have h := (leaf_series_engine (.obv : Kind K) nm n Covered.obv raw hraw _ hrun).1
+  rw [engineCalc_leaf _ (Covered.obv.isLeaf n)] at h
+  rw [calculate_leaf _ (Covered.obv.isLeaf n) _ raw (fuelFor_ge raw)]
+  exact h
+
+/-- the input series read off a candle list: `none` where the input reading is missing -/
+def inputAt (cs : List (Candle K)) (input : String) (j : Nat) : Option K :=
+  match readingByCandle (cs.getD j default) input with
+  | .s (.num r) => some r.toF
+  | _ => none
+
+/-- What is STILL OPEN at the series level, stated for RSI (MACD, STOCH, TSI: the same shape with
+`MacdCandleOK`, `StochOK`, `TsiCandleOK` and their warm-up indices shifted by `t0`; ROC likewise):
+the input is ANY reading name – a candle field or another indicator's (scalar) reading – that is
+missing on the first `t0` candles of the list and numeric afterwards, and the candle list may
+already hold other indicators' readings (but nothing under `nm` / `nm_data`).  Then the ENGINE run
+never raises, keeps the length, and the own reading of candle `j` is `None` for `j < t0 + p` and
+afterwards follows the textbook RSI series of the input VALUES `x` (within `ε_n`, in `[0, 100]`:
+`RsiOwnOK`) – i.e. the result depends on the input values only, not on where they start.
+NOT proved.  Proved instead: this statement for `t0 = 0`, raw candles and a candle-field input
+(`rsi_series_candles` / `Numeric.rsi_series_engine`), and for arbitrary inputs and start positions
+every single call (`rsi_seed`, `rsi_step`, which address the input RELATIVE to the active index).
+Missing: the series induction over candle lists that hold foreign readings – the `TreeSpec`s and
+the component calculus of HexProofs/Framework/Gen are built for inputs that are candle attributes
+(`NoDot input ∧ input ∈ Candle.attrNames`), so the key-locality argument (the run neither reads
+nor disturbs the foreign keys, and the foreign column is read at the same offsets) is not done.
+Dotted inputs (`MACD_12_26_9.MACD`) are the same statement with the main key in the side conditions.
+Also open, not stated formally: the numeric statements under a collapsing timeframe for the
+indicators other than RSI (`rsi_series_tf` is the pattern), IEEE effects, and the exact TSI range
+without the extra rounding law `RoundNegLe`. -/
+def C06_chained_FULL : Prop :=
+  ∀ (K : Type) [Field K] [LinearOrder K] [IsStrictOrderedRing K] [LawfulPyF K]
+    (p : Nat) (nm input : String) (n t0 : Nat) (cs : List (Candle K)) (x : Nat → K),
+    1 ≤ p → IsKey nm → RsiNames nm → NoDot input → input ≠ nm → input ≠ nm ++ "_data" →
+    (∀ c ∈ cs, dlookup nm c.inds = none ∧ dlookup nm c.subs = none ∧
+      dlookup (nm ++ "_data") c.inds = none ∧ dlookup (nm ++ "_data") c.subs = none) →
+    (∀ j, j < cs.length → inputAt cs input j = if j < t0 then none else some (x (j - t0))) →
+    ∃ out : List (Candle K), out.length = cs.length ∧
+      engineCalc (mkTop (.rsi (p : Int) input : Kind K) nm n) cs = .ok out ∧
+      ∀ j, j < cs.length →
+        (j < t0 → readingByCandle (out.getD j default) nm = .none) ∧
+        (t0 ≤ j → RsiOwnOK n (rsiSeries p x (j - t0)) (readingByCandle (out.getD j default) nm))
 
 end Hex.C06
